@@ -172,6 +172,8 @@ func localViewFromBase(base *modfile.File) *modfile.File {
 		Source:   base.Source,
 		Custom:   base.Custom,
 		Deps:     deps,
+
+		Description: base.Description,
 	}
 }
 
